@@ -56,14 +56,13 @@ pub mod w14 {
       pub struct Prog;
       relation r0(i64, i64);
       relation r1(i64, i64);
-      lattice r2(i64, Option<i64>);
-      lattice r3(i64, i64, i64);
-      r2(v0, Some((*v0))) <-- r0(v0, v0) if ((*v0) < 4);
-      r2(v0, Some((*v2))) <-- r2(v0, v1), r0(v0, v2);
-      r3(v0, v0, (*v0)) <-- r1(v0, v0);
-      r1(v0, v0) <-- r2(v0, v1);
-      r0(v0, v0) <-- r2(v0, v1);
-      r3(v0, v0, 3) <-- r2(v0, v1);
+      lattice r2(i64, Dual<i64>);
+      lattice r3(i64, i64, Option<i64>);
+      r2(v0, Dual((*v0))) <-- r0(v0, v0) if ((*v0) < 4);
+      r2(v2, v1) <-- r2(v0, v1) if ((*v0) < 2), r0(v0, v2);
+      r3(2, 1, Some(3)) <-- r0(0, 0);
+      r3(v3, v3, v2) <-- r3(v0, v1, v2), r0(v3, v3);
+      r0(0, v1) <-- r0(v0, v1);
    }
    pub struct Inst { p: Prog, pool: Option<ascent::rayon::ThreadPool> }
    pub fn make(pool: Option<usize>) -> Box<dyn Driver> {
@@ -76,8 +75,8 @@ pub mod w14 {
          match rel {
          0 => { let v: Vec<(i64,i64,)> = parse_rows(rows)?; if !append { self.p.r0 = Default::default(); } for x in v { self.p.r0.push(x); } },
          1 => { let v: Vec<(i64,i64,)> = parse_rows(rows)?; if !append { self.p.r1 = Default::default(); } for x in v { self.p.r1.push(x); } },
-         2 => { let v: Vec<(i64,Option<i64>,)> = parse_rows(rows)?; if !append { self.p.r2 = Default::default(); } for x in v { self.p.r2.push(std::sync::RwLock::new(x)); } },
-         3 => { let v: Vec<(i64,i64,i64,)> = parse_rows(rows)?; if !append { self.p.r3 = Default::default(); } for x in v { self.p.r3.push(std::sync::RwLock::new(x)); } },
+         2 => { let v: Vec<(i64,Dual<i64>,)> = parse_rows(rows)?; if !append { self.p.r2 = Default::default(); } for x in v { self.p.r2.push(std::sync::RwLock::new(x)); } },
+         3 => { let v: Vec<(i64,i64,Option<i64>,)> = parse_rows(rows)?; if !append { self.p.r3 = Default::default(); } for x in v { self.p.r3.push(std::sync::RwLock::new(x)); } },
             _ => return None,
          }
          Some(())
@@ -103,22 +102,22 @@ pub mod w22 {
       relation r2(i64, i64);
       relation r3(i64);
       relation r4(i64, i64);
-      relation r5(i64);
+      relation r5(i64, i64);
       relation r6(i64);
-      relation r7(i64, i64);
-      relation r8(i64, i64);
-      relation r9(i64);
-      relation r10(i64);
+      relation r7(i64);
+      relation r8(i64);
+      relation r9(i64, i64);
+      relation r10(i64, i64);
       r2(v0, v2) <-- r1(v0, v1), r1(v1, v2), r4(v2, v3);
       r2(v0, v2) <-- r2(v0, v1), r1(v1, v2), r2(v2, v3);
       r2(2, v0) <-- r2(v0, v1) if ((*v0) != 5) let v2 = ((*v1) + 1);
       r4(((*v0) + 1), v0) <-- r0(v0) if ((*v0) != 2), if ((*v0) < 6);
-      r5(v1) <-- r4(v0, v1), agg v21 = min(v20) in r3(v20);
-      r6(v0) <-- r0(v0), agg v21 = min(v20) in r5(v20);
-      r7(v1, (v21 as i64)) <-- r2(v0, v1), agg v21 = count() in r2(_, _);
-      r8(v0, v21) <-- r0(v0), agg v21 = sum(v20) in r2((*v0), v20);
-      r9(v0) <-- r3(v0), agg v21 = sum(v20) in r4(v20, (*v0));
-      r10(v0) <-- r0(v0), agg v21 = min(v20) in r3(v20);
+      r5(v1, v21) <-- r4(v0, v1), agg v21 = min(v20) in r3(v20);
+      r6(v0) <-- r3(v0), agg v21 = count() in r3((*v0));
+      r7(v0) <-- r0(v0), agg v21 = min(v20) in r4(v20, _);
+      r8(v1) <-- r1(v0, v1), r4(v32, v33), r3(v0), agg v21 = sum(v20) in r4(v20, (*v32));
+      r9(v1, (v21 as i64)) <-- r2(v0, v1), r4(v1, v1), r2(v1, v1), agg v21 = count() in r0(_);
+      r10(v0, 2) <-- r1(v0, v1), r1(v1, v1), agg () = not() in r4(_, _);
    }
    pub struct Inst { p: Prog, pool: Option<ascent::rayon::ThreadPool> }
    pub fn make(pool: Option<usize>) -> Box<dyn Driver> {
@@ -134,12 +133,12 @@ pub mod w22 {
          2 => { let v: Vec<(i64,i64,)> = parse_rows(rows)?; if !append { self.p.r2 = Default::default(); } for x in v { self.p.r2.push(x); } },
          3 => { let v: Vec<(i64,)> = parse_rows(rows)?; if !append { self.p.r3 = Default::default(); } for x in v { self.p.r3.push(x); } },
          4 => { let v: Vec<(i64,i64,)> = parse_rows(rows)?; if !append { self.p.r4 = Default::default(); } for x in v { self.p.r4.push(x); } },
-         5 => { let v: Vec<(i64,)> = parse_rows(rows)?; if !append { self.p.r5 = Default::default(); } for x in v { self.p.r5.push(x); } },
+         5 => { let v: Vec<(i64,i64,)> = parse_rows(rows)?; if !append { self.p.r5 = Default::default(); } for x in v { self.p.r5.push(x); } },
          6 => { let v: Vec<(i64,)> = parse_rows(rows)?; if !append { self.p.r6 = Default::default(); } for x in v { self.p.r6.push(x); } },
-         7 => { let v: Vec<(i64,i64,)> = parse_rows(rows)?; if !append { self.p.r7 = Default::default(); } for x in v { self.p.r7.push(x); } },
-         8 => { let v: Vec<(i64,i64,)> = parse_rows(rows)?; if !append { self.p.r8 = Default::default(); } for x in v { self.p.r8.push(x); } },
-         9 => { let v: Vec<(i64,)> = parse_rows(rows)?; if !append { self.p.r9 = Default::default(); } for x in v { self.p.r9.push(x); } },
-         10 => { let v: Vec<(i64,)> = parse_rows(rows)?; if !append { self.p.r10 = Default::default(); } for x in v { self.p.r10.push(x); } },
+         7 => { let v: Vec<(i64,)> = parse_rows(rows)?; if !append { self.p.r7 = Default::default(); } for x in v { self.p.r7.push(x); } },
+         8 => { let v: Vec<(i64,)> = parse_rows(rows)?; if !append { self.p.r8 = Default::default(); } for x in v { self.p.r8.push(x); } },
+         9 => { let v: Vec<(i64,i64,)> = parse_rows(rows)?; if !append { self.p.r9 = Default::default(); } for x in v { self.p.r9.push(x); } },
+         10 => { let v: Vec<(i64,i64,)> = parse_rows(rows)?; if !append { self.p.r10 = Default::default(); } for x in v { self.p.r10.push(x); } },
             _ => return None,
          }
          Some(())
